@@ -144,6 +144,28 @@ class CompSeq(SymSeq):
     def kvc_tolist(self, interp):
         return self
 
+    def kvc_any(self, interp):
+        """any(<comprehension of unknown length>): decidable here only when the element is literally True/False for a
+        generic index; `any(True for selected elements)` is 'some element is selected' (a fresh Boolean per sequence)."""
+        i = SInt(z3.Int(current().fresh('anyidx')))
+        cond, el = self.at(i)
+        if el is False or cond is False:
+            return False
+        if el is True:
+            if not hasattr(self, '_nonempty'):
+                self._nonempty = SBool(z3.Bool(current().fresh('nonempty')))
+            root = getattr(self, 'base', self)
+            if not hasattr(root, '_nonempty'):
+                root._nonempty = self._nonempty
+            return root._nonempty
+        raise OutOfSubset('any() over a comprehension of unknown length with a symbolic element')
+
+    def kvc_truth(self, interp):
+        root = getattr(self, 'base', self)
+        if not hasattr(root, '_nonempty'):
+            root._nonempty = SBool(z3.Bool(current().fresh('nonempty')))
+        return root._nonempty
+
     def items(self):
         if self.kind != 'dict':
             raise AttributeError('items')
